@@ -80,7 +80,7 @@ def cases(tier: str, seed: int) -> List[Dict[str, Any]]:
     out = lattice_cases(tier, seed)
     # ambient environment coordinates (default configuration and one dtype deviation per function)
     for name, op in OPS.items():
-        for env in ("no_grad", "inference_mode", "default_dtype=float64", "default_dtype=bfloat16", "default_dtype=float16"):
+        for env in ("no_grad", "inference_mode", "default_dtype=float64", "default_dtype=bfloat16", "default_dtype=float16", "noncontiguous", "expanded_batch"):
             for dt in ("float64", "float32"):
                 out.append({"kind": "probe", "op": name, "cfg": dict(default_cfg(op), dtype=dt), "seed": seed, "env": env})
     for name, cfgs in TINY.items():
